@@ -77,7 +77,7 @@ def ref_cbtn(V, J):
     n = J.shape[0]
     d = int(round(np.sqrt(n)))
     Js = snap(J)
-    y0, y1 = np.asarray(V["y0"]), np.asarray(V["y1"])
+    y0, y1 = V.herm("y0"), V.herm("y1")
     blk = np.empty((2 * n, 2 * n), dtype=object)
     blk[:n, :n] = y0
     blk[:n, n:] = -Js
